@@ -16,7 +16,7 @@ RULE = (
 )
 ASSUMPTIONS = ["reference CRC (two cross-checked implementations) and own header arithmetic are the oracle"]
 GATES = ["serialize_checked", "reparse_checked", "frame_roundtrip_checked", "repr_checked", "lengths_enumerated",
-         "alias_families"]
+         "alias_families", "reader_roundtrip_checked"]
 
 NASTY = bytes([0x27, 0x22, 0x5C, 0x00, 0x0A, 0x0D, 0x7F, 0x80, 0xFF, 0x7B, 0x7D, 0x25])
 
@@ -85,6 +85,34 @@ def one(ctx, payload, label):
         kind, desc = monitors.RECORDED[0]
         del monitors.RECORDED[:]
         ctx.hit("internal:" + kind)
+    # the same frame obtained from stream readers (file-like and multi-segment socket) round-trips too
+    if len(payload) % 4 == 0:
+        import io
+
+        from vf import doubles
+
+        third = max(1, len(want) // 3)
+        for backend in ("file", "socket"):
+            sock = None
+            try:
+                if backend == "file":
+                    rdr = RTCMReader(io.BytesIO(want), quitonerror=2)
+                else:
+                    sock = doubles.ScriptedSocket(want, [third, third, 1], budget=4 * len(want) + 64)
+                    rdr = RTCMReader(sock, quitonerror=2, bufsize=max(1, len(want) // 4))
+                got = [(bytes(r), p_) for r, p_ in rdr]
+            except BaseException as e:
+                ctx.violation("reader-roundtrip-raised", f"{label}: reading the serialised frame back over a {backend} "
+                              f"stream raised {type(e).__name__}: {e}", params)
+                return
+            finally:
+                if sock is not None:
+                    sock.close()
+            if len(got) != 1 or got[0][0] != want or got[0][1].serialize() != want or got[0][1].payload != payload:
+                ctx.violation("reader-roundtrip-differs", f"{label} len {len(payload)}: the serialised frame read back over a "
+                              f"{backend} stream gives {len(got)} frame(s) / a different frame", params)
+                return
+            ctx.hit("reader_roundtrip_checked")
     ctx.case(payload, len(payload) > 2)
     if len(payload) in (255, 256, 1023):
         ctx.hit(f"len{len(payload)}")
